@@ -1,4 +1,834 @@
 import TT.Model.UdpSocks
 namespace TT.UdpSocks
+open TT.UdpFlows (Meta Cfg Op Obs PipeEntry Kind touchOut touchIn setPeer)
+set_option linter.unusedSimpArgs false
+
+/-! ## generic list facts -/
+
+section ListFacts
+variable {α : Type} {κ : Type}
+
+theorem eq_of_nodup_map (key : α → κ) {l : List α} (hn : (l.map key).Nodup) {a b : α}
+    (ha : a ∈ l) (hb : b ∈ l) (h : key a = key b) : a = b := by
+  induction l with
+  | nil => simp at ha
+  | cons x l ih =>
+    simp only [List.map_cons, List.nodup_cons, List.mem_map, List.mem_cons] at hn ha hb
+    rcases ha with rfl | ha <;> rcases hb with rfl | hb
+    · rfl
+    · exact absurd ⟨b, hb, h.symm⟩ hn.1
+    · exact absurd ⟨a, ha, h⟩ hn.1
+    · exact ih hn.2 ha hb
+
+theorem map_filterMap_sublist (f : α → Option α) (g : α → κ)
+    (hf : ∀ a a', f a = some a' → g a' = g a) (l : List α) :
+    ((l.filterMap f).map g).Sublist (l.map g) := by
+  induction l with
+  | nil => simp
+  | cons x l ih =>
+    cases hx : f x with
+    | none => simpa [List.filterMap_cons, hx] using ih.cons _
+    | some y =>
+      have := hf x y hx
+      simpa [List.filterMap_cons, hx, this] using ih.cons_cons (g x)
+
+end ListFacts
+
+/-! ## the two ways an association list changes -/
+
+/-- `closeFlow` on one association -/
+def closeF (m : Meta) (a : Assoc) : Option Assoc :=
+  if a.src == m.src then
+    let ps := a.peers.filter (· != m.dst)
+    if ps.isEmpty then none else some { a with peers := ps }
+  else some a
+
+/-- `on_new_udp_connection` joining an existing association -/
+def joinF (m : Meta) (a : Assoc) : Assoc :=
+  if a.src == m.src && !a.peers.contains m.dst then { a with peers := a.peers ++ [m.dst] } else a
+
+theorem closeFlow_eq (s : St) (m : Meta) :
+    closeFlow s m = { s with assocs := s.assocs.filterMap (closeF m) } := rfl
+
+theorem closeF_eq_some_iff {m : Meta} {a a' : Assoc} :
+    closeF m a = some a' ↔
+      (a.src = m.src ∧ a.peers.filter (· != m.dst) ≠ [] ∧
+        a' = { a with peers := a.peers.filter (· != m.dst) }) ∨ (a.src ≠ m.src ∧ a' = a) := by
+  unfold closeF
+  by_cases h : a.src = m.src
+  · by_cases h2 : a.peers.filter (· != m.dst) = []
+    · simp [h, h2]
+    · simp [h, h2]
+      exact ⟨fun e => e.symm, fun e => e.symm⟩
+  · simp [h]
+    exact ⟨fun e => e.symm, fun e => e.symm⟩
+
+theorem closeF_src {m : Meta} {a a' : Assoc} (h : closeF m a = some a') : a'.src = a.src := by
+  rcases closeF_eq_some_iff.1 h with ⟨_, _, rfl⟩ | ⟨_, rfl⟩ <;> rfl
+
+theorem closeF_id {m : Meta} {a a' : Assoc} (h : closeF m a = some a') : a'.id = a.id := by
+  rcases closeF_eq_some_iff.1 h with ⟨_, _, rfl⟩ | ⟨_, rfl⟩ <;> rfl
+
+theorem joinF_src (m : Meta) (a : Assoc) : (joinF m a).src = a.src := by
+  unfold joinF; split <;> rfl
+
+theorem joinF_id (m : Meta) (a : Assoc) : (joinF m a).id = a.id := by
+  unfold joinF; split <;> rfl
+
+theorem mem_joinF_peers (m : Meta) (a : Assoc) (x : Nat) :
+    x ∈ (joinF m a).peers ↔ x ∈ a.peers ∨ (a.src = m.src ∧ x = m.dst) := by
+  unfold joinF
+  by_cases h : a.src = m.src <;> by_cases h2 : m.dst ∈ a.peers <;> simp [h, h2]
+  intro hx; subst hx; exact h2
+
+/-- flow `m` is held by some association -/
+def Cov (as : List Assoc) (m : Meta) : Prop := ∃ a ∈ as, a.src = m.src ∧ m.dst ∈ a.peers
+
+theorem Meta.ne_iff {m m' : Meta} (hs : m'.src = m.src) : m' ≠ m ↔ m'.dst ≠ m.dst := by
+  cases m; cases m'; simp at hs; simp [hs]
+
+theorem Cov_close {as : List Assoc} {m m' : Meta} :
+    Cov (as.filterMap (closeF m)) m' ↔ Cov as m' ∧ m' ≠ m := by
+  unfold Cov
+  constructor
+  · rintro ⟨a', ha', hs, hd⟩
+    obtain ⟨a, ha, hc⟩ := List.mem_filterMap.1 ha'
+    rcases closeF_eq_some_iff.1 hc with ⟨h1, _, rfl⟩ | ⟨h1, rfl⟩
+    · simp only [List.mem_filter, bne_iff_ne] at hd
+      have hs' : m'.src = m.src := by rw [← hs]; exact h1
+      exact ⟨⟨a, ha, hs, hd.1⟩, (Meta.ne_iff hs').2 hd.2⟩
+    · refine ⟨⟨a', ha, hs, hd⟩, ?_⟩
+      rintro rfl; exact h1 hs
+  · rintro ⟨⟨a, ha, hs, hd⟩, hne⟩
+    by_cases h1 : a.src = m.src
+    · have hs' : m'.src = m.src := by rw [← hs]; exact h1
+      have hd' : m'.dst ∈ a.peers.filter (· != m.dst) := by
+        simp only [List.mem_filter, bne_iff_ne]
+        exact ⟨hd, (Meta.ne_iff hs').1 hne⟩
+      refine ⟨{ a with peers := a.peers.filter (· != m.dst) }, ?_, hs, hd'⟩
+      refine List.mem_filterMap.2 ⟨a, ha, closeF_eq_some_iff.2 (Or.inl ⟨h1, ?_, rfl⟩)⟩
+      exact List.ne_nil_of_mem hd'
+    · exact ⟨a, List.mem_filterMap.2 ⟨a, ha, closeF_eq_some_iff.2 (Or.inr ⟨h1, rfl⟩)⟩, hs, hd⟩
+
+theorem Cov_join {as : List Assoc} {m m' : Meta} (h : ∃ a ∈ as, a.src = m.src) :
+    Cov (as.map (joinF m)) m' ↔ Cov as m' ∨ m' = m := by
+  unfold Cov
+  constructor
+  · rintro ⟨a', ha', hs, hd⟩
+    obtain ⟨a, ha, rfl⟩ := List.mem_map.1 ha'
+    rw [joinF_src] at hs
+    rcases (mem_joinF_peers m a _).1 hd with hd | ⟨h1, h2⟩
+    · exact Or.inl ⟨a, ha, hs, hd⟩
+    · right
+      cases m; cases m'; simp_all
+  · rintro (⟨a, ha, hs, hd⟩ | rfl)
+    · exact ⟨joinF m a, List.mem_map_of_mem ha, by rw [joinF_src]; exact hs,
+        (mem_joinF_peers m a _).2 (Or.inl hd)⟩
+    · obtain ⟨a, ha, hs⟩ := h
+      exact ⟨joinF m' a, List.mem_map_of_mem ha, by rw [joinF_src]; exact hs,
+        (mem_joinF_peers m' a _).2 (Or.inr ⟨hs, rfl⟩)⟩
+
+theorem Cov_open {as : List Assoc} {m m' : Meta} {n : Nat} :
+    Cov (as ++ [{ src := m.src, id := n, peers := [m.dst] }]) m' ↔ Cov as m' ∨ m' = m := by
+  unfold Cov
+  constructor
+  · rintro ⟨a, ha, hs, hd⟩
+    rcases List.mem_append.1 ha with ha | ha
+    · exact Or.inl ⟨a, ha, hs, hd⟩
+    · right
+      simp only [List.mem_singleton] at ha
+      subst ha
+      cases m; cases m'; simp_all
+  · rintro (⟨a, ha, hs, hd⟩ | rfl)
+    · exact ⟨a, List.mem_append_left _ ha, hs, hd⟩
+    · exact ⟨_, List.mem_append_right _ (List.mem_singleton.2 rfl), rfl, by simp⟩
+
+/-! ## the association part of the invariant -/
+
+structure AInv (as : List Assoc) (seen : List (Meta × Nat)) (n : Nat) : Prop where
+  srcNd : (as.map (·.src)).Nodup
+  idNd : (as.map (·.id)).Nodup
+  good : ∀ a ∈ as, a.id < n ∧ a.peers ≠ [] ∧ a.peers.Nodup
+  seenLt : ∀ p ∈ seen, p.2 < n
+  /-- ids are never reused: what a server remembers still names an association of that source -/
+  world : ∀ p ∈ seen, ∀ a ∈ as, a.id = p.2 → a.src = p.1.src
+
+theorem AInv.nil {seen : List (Meta × Nat)} {n : Nat} (h : ∀ p ∈ seen, p.2 < n) : AInv [] seen n where
+  srcNd := by simp
+  idNd := by simp
+  good := by simp
+  seenLt := h
+  world := by simp
+
+theorem AInv.close {as seen n} (h : AInv as seen n) (m : Meta) :
+    AInv (as.filterMap (closeF m)) seen n where
+  srcNd := List.Nodup.sublist (map_filterMap_sublist _ _ (fun _ _ => closeF_src) as) h.srcNd
+  idNd := List.Nodup.sublist (map_filterMap_sublist _ _ (fun _ _ => closeF_id) as) h.idNd
+  good := by
+    intro a' ha'
+    obtain ⟨a, ha, hc⟩ := List.mem_filterMap.1 ha'
+    have hg := h.good a ha
+    rcases closeF_eq_some_iff.1 hc with ⟨_, h2, rfl⟩ | ⟨_, rfl⟩
+    · exact ⟨hg.1, h2, List.Nodup.sublist List.filter_sublist hg.2.2⟩
+    · exact hg
+  seenLt := h.seenLt
+  world := by
+    intro p hp a' ha' hid
+    obtain ⟨a, ha, hc⟩ := List.mem_filterMap.1 ha'
+    rw [closeF_src hc]
+    exact h.world p hp a ha (by rw [← closeF_id hc]; exact hid)
+
+theorem joinF_good (m : Meta) (a : Assoc) (h : a.peers ≠ [] ∧ a.peers.Nodup) :
+    (joinF m a).peers ≠ [] ∧ (joinF m a).peers.Nodup := by
+  unfold joinF
+  split
+  · rename_i hc
+    simp only [Bool.and_eq_true, Bool.not_eq_true', List.contains_eq_mem, decide_eq_false_iff_not,
+      beq_iff_eq] at hc
+    refine ⟨by simp, ?_⟩
+    rw [List.nodup_append]
+    refine ⟨h.2, by simp, ?_⟩
+    intro x hx y hy
+    simp only [List.mem_singleton] at hy
+    subst hy
+    rintro rfl
+    exact hc.2 hx
+  · exact h
+
+theorem AInv.join {as seen n} (h : AInv as seen n) (m : Meta) : AInv (as.map (joinF m)) seen n where
+  srcNd := by
+    have : (as.map (joinF m)).map (·.src) = as.map (·.src) := by
+      rw [List.map_map]; exact List.map_congr_left (fun a _ => joinF_src m a)
+    rw [this]; exact h.srcNd
+  idNd := by
+    have : (as.map (joinF m)).map (·.id) = as.map (·.id) := by
+      rw [List.map_map]; exact List.map_congr_left (fun a _ => joinF_id m a)
+    rw [this]; exact h.idNd
+  good := by
+    intro a' ha'
+    obtain ⟨a, ha, rfl⟩ := List.mem_map.1 ha'
+    have hg := h.good a ha
+    rw [joinF_id]
+    exact ⟨hg.1, joinF_good m a hg.2⟩
+  seenLt := h.seenLt
+  world := by
+    intro p hp a' ha' hid
+    obtain ⟨a, ha, rfl⟩ := List.mem_map.1 ha'
+    rw [joinF_src]
+    rw [joinF_id] at hid
+    exact h.world p hp a ha hid
+
+theorem AInv.open {as seen n} (h : AInv as seen n) (m : Meta) (hn : ∀ a ∈ as, a.src ≠ m.src) :
+    AInv (as ++ [{ src := m.src, id := n, peers := [m.dst] }]) seen (n + 1) where
+  srcNd := by
+    rw [List.map_append, List.nodup_append]
+    refine ⟨h.srcNd, by simp, ?_⟩
+    intro x hx y hy
+    obtain ⟨a, ha, rfl⟩ := List.mem_map.1 hx
+    simp only [List.map_cons, List.map_nil, List.mem_singleton] at hy
+    subst hy
+    exact hn a ha
+  idNd := by
+    rw [List.map_append, List.nodup_append]
+    refine ⟨h.idNd, by simp, ?_⟩
+    intro x hx y hy
+    obtain ⟨a, ha, rfl⟩ := List.mem_map.1 hx
+    simp only [List.map_cons, List.map_nil, List.mem_singleton] at hy
+    subst hy
+    exact Nat.ne_of_lt (h.good a ha).1
+  good := by
+    intro a ha
+    rcases List.mem_append.1 ha with ha | ha
+    · have hg := h.good a ha
+      exact ⟨Nat.lt_succ_of_lt hg.1, hg.2⟩
+    · simp only [List.mem_singleton] at ha
+      subst ha
+      exact ⟨Nat.lt_succ_self _, by simp, by simp⟩
+  seenLt := fun p hp => Nat.lt_succ_of_lt (h.seenLt p hp)
+  world := by
+    intro p hp a ha hid
+    rcases List.mem_append.1 ha with ha | ha
+    · exact h.world p hp a ha hid
+    · simp only [List.mem_singleton] at ha
+      subst ha
+      have := h.seenLt p hp
+      simp only at hid
+      omega
+
+theorem mem_setPeer {ps : List (Meta × Nat)} {m : Meta} {id : Nat} {p : Meta × Nat}
+    (h : p ∈ setPeer ps m id) : p = (m, id) ∨ p ∈ ps := by
+  unfold setPeer at h
+  rcases List.mem_cons.1 h with h | h
+  · exact Or.inl h
+  · exact Or.inr (List.mem_filter.1 h).1
+
+theorem AInv.setSeen {as seen n} (h : AInv as seen n) (m : Meta) {a : Assoc} (ha : a ∈ as)
+    (hs : a.src = m.src) : AInv as (setPeer seen m a.id) n where
+  srcNd := h.srcNd
+  idNd := h.idNd
+  good := h.good
+  seenLt := by
+    intro p hp
+    rcases mem_setPeer hp with rfl | hp
+    · exact (h.good a ha).1
+    · exact h.seenLt p hp
+  world := by
+    intro p hp a' ha' hid
+    rcases mem_setPeer hp with rfl | hp
+    · have : a' = a := eq_of_nodup_map (·.id) h.idNd ha' ha hid
+      subst this
+      exact hs
+    · exact h.world p hp a' ha' hid
+
+/-! ## the invariant -/
+
+structure Inv (s : St) : Prop where
+  a : AInv s.assocs s.seenFrom s.nextId
+  keyNd : (s.pipe.map (·.key)).Nodup
+  coupled : ∀ m, (∃ e ∈ s.pipe, e.key = m) ↔ Cov s.assocs m
+
+theorem inv_init (c : Cfg) : Inv (init c) where
+  a := AInv.nil (by simp [init])
+  keyNd := by simp [init]
+  coupled := by simp [init, Cov]
+
+theorem find?_src_some {as : List Assoc} {src : Nat} {a : Assoc}
+    (h : as.find? (·.src == src) = some a) : a ∈ as ∧ a.src = src :=
+  ⟨List.mem_of_find?_eq_some h, by simpa using List.find?_some h⟩
+
+theorem find?_src_none {as : List Assoc} {src : Nat}
+    (h : as.find? (·.src == src) = none) : ∀ a ∈ as, a.src ≠ src := by
+  intro a ha
+  have := List.find?_eq_none.1 h a ha
+  simpa using this
+
+/-- closing flow `m` in both tables -/
+theorem Inv.close {s : St} (h : Inv s) (m : Meta) : Inv (closeFlow (removePipe s m) m) where
+  a := h.a.close m
+  keyNd := List.Nodup.sublist (List.Sublist.map _ List.filter_sublist) h.keyNd
+  coupled := by
+    intro m'
+    show (∃ e ∈ s.pipe.filter (·.key != m), e.key = m') ↔ Cov (s.assocs.filterMap (closeF m)) m'
+    rw [Cov_close, ← h.coupled m']
+    constructor
+    · rintro ⟨e, he, rfl⟩
+      simp only [List.mem_filter, bne_iff_ne] at he
+      exact ⟨⟨e, he.1, rfl⟩, he.2⟩
+    · rintro ⟨⟨e, he, rfl⟩, hne⟩
+      exact ⟨e, List.mem_filter.2 ⟨he, by simpa using hne⟩, rfl⟩
+
+/-- a key-preserving rewrite of the flow table -/
+theorem Inv.mapPipe {s : St} (h : Inv s) (g : PipeEntry → PipeEntry) (hg : ∀ x ∈ s.pipe, (g x).key = x.key) :
+    Inv { s with pipe := s.pipe.map g } where
+  a := h.a
+  keyNd := by
+    have : (s.pipe.map g).map (·.key) = s.pipe.map (·.key) := by
+      rw [List.map_map]; exact List.map_congr_left hg
+    show ((s.pipe.map g).map (·.key)).Nodup
+    rw [this]; exact h.keyNd
+  coupled := by
+    intro m'
+    show (∃ e ∈ s.pipe.map g, e.key = m') ↔ Cov s.assocs m'
+    rw [← h.coupled m']
+    constructor
+    · rintro ⟨e', he', rfl⟩
+      obtain ⟨e, he, rfl⟩ := List.mem_map.1 he'
+      exact ⟨e, he, (hg e he).symm⟩
+    · rintro ⟨e, he, rfl⟩
+      exact ⟨g e, List.mem_map_of_mem he, hg e he⟩
+
+theorem Inv.setSeen {s : St} (h : Inv s) (m : Meta) {a : Assoc} (ha : a ∈ s.assocs) (hs : a.src = m.src) :
+    Inv { s with seenFrom := setPeer s.seenFrom m a.id } where
+  a := h.a.setSeen m ha hs
+  keyNd := h.keyNd
+  coupled := h.coupled
+
+theorem sinkWrite_inv {c : Cfg} {s : St} {m : Meta} {len : Nat} (h : Inv s) :
+    Inv (sinkWrite c s m len).1 := by
+  unfold sinkWrite
+  split
+  · exact h.close m
+  · rename_i a ha
+    obtain ⟨ha1, ha2⟩ := find?_src_some ha
+    split
+    · exact ⟨(h.setSeen m ha1 ha2).a, h.keyNd, h.coupled⟩
+    · exact ⟨(h.setSeen m ha1 ha2).a, h.keyNd, h.coupled⟩
+    · exact ⟨h.a, h.keyNd, h.coupled⟩
+
+theorem hasPipe_false {s : St} {m : Meta} (h : ¬ hasPipe s m = true) : ∀ e ∈ s.pipe, e.key ≠ m := by
+  intro e he hk
+  apply h
+  simp only [hasPipe, List.any_eq_true, beq_iff_eq]
+  exact ⟨e, he, hk⟩
+
+theorem Inv.insertJoin {s : St} (h : Inv s) (m : Meta) (e : PipeEntry) (he : e.key = m)
+    (hn : ¬ hasPipe s m = true) (hex : ∃ a ∈ s.assocs, a.src = m.src) :
+    Inv { s with assocs := s.assocs.map (joinF m), pipe := e :: s.pipe } where
+  a := h.a.join m
+  keyNd := by
+    show ((e :: s.pipe).map (·.key)).Nodup
+    rw [List.map_cons, List.nodup_cons]
+    refine ⟨?_, h.keyNd⟩
+    intro hm
+    obtain ⟨e', he', hk⟩ := List.mem_map.1 hm
+    exact hasPipe_false hn e' he' (hk.trans he)
+  coupled := by
+    intro m'
+    show (∃ e' ∈ e :: s.pipe, e'.key = m') ↔ Cov (s.assocs.map (joinF m)) m'
+    rw [Cov_join hex, ← h.coupled m']
+    constructor
+    · rintro ⟨e', he', rfl⟩
+      rcases List.mem_cons.1 he' with rfl | he'
+      · exact Or.inr he
+      · exact Or.inl ⟨e', he', rfl⟩
+    · rintro (⟨e', he', rfl⟩ | rfl)
+      · exact ⟨e', List.mem_cons_of_mem _ he', rfl⟩
+      · exact ⟨e, List.mem_cons_self, he⟩
+
+theorem Inv.insertOpen {s : St} (h : Inv s) (m : Meta) (e : PipeEntry) (he : e.key = m)
+    (hn : ¬ hasPipe s m = true) (hex : ∀ a ∈ s.assocs, a.src ≠ m.src) :
+    Inv { s with assocs := s.assocs ++ [{ src := m.src, id := s.nextId, peers := [m.dst] }],
+                 nextId := s.nextId + 1, pipe := e :: s.pipe } where
+  a := h.a.open m hex
+  keyNd := by
+    show ((e :: s.pipe).map (·.key)).Nodup
+    rw [List.map_cons, List.nodup_cons]
+    refine ⟨?_, h.keyNd⟩
+    intro hm
+    obtain ⟨e', he', hk⟩ := List.mem_map.1 hm
+    exact hasPipe_false hn e' he' (hk.trans he)
+  coupled := by
+    intro m'
+    show (∃ e' ∈ e :: s.pipe, e'.key = m') ↔
+      Cov (s.assocs ++ [{ src := m.src, id := s.nextId, peers := [m.dst] }]) m'
+    rw [Cov_open, ← h.coupled m']
+    constructor
+    · rintro ⟨e', he', rfl⟩
+      rcases List.mem_cons.1 he' with rfl | he'
+      · exact Or.inr he
+      · exact Or.inl ⟨e', he', rfl⟩
+    · rintro (⟨e', he', rfl⟩ | rfl)
+      · exact ⟨e', List.mem_cons_of_mem _ he', rfl⟩
+      · exact ⟨e, List.mem_cons_self, he⟩
+
+theorem stepDg_inv {c : Cfg} {s : St} {m : Meta} {len : Nat} (h : Inv s) :
+    Inv (stepDg c s m len).1 := by
+  unfold stepDg
+  split
+  · exact sinkWrite_inv (h.mapPipe _ (fun x _ => by split <;> rfl))
+  · rename_i hn
+    apply sinkWrite_inv
+    cases hf : findAssoc s m.src with
+    | none =>
+      exact h.insertOpen m _ rfl hn (find?_src_none hf)
+    | some a =>
+      obtain ⟨ha1, ha2⟩ := find?_src_some hf
+      exact h.insertJoin m _ rfl hn ⟨a, ha1, ha2⟩
+
+theorem touchIn_key (now : Nat) (e : PipeEntry) : (touchIn now e).1.key = e.key := by
+  unfold touchIn; split <;> rfl
+
+/-- what a reply does once the association it arrives on is known -/
+def replyCore (s : St) (a : Assoc) (m : Meta) (len : Nat) : St × Obs :=
+  let lbl : Meta := { src := a.src, dst := m.dst }
+  let s := { s with down := s.down + len }
+  let obs : Obs := { cli := [(lbl, m, len)] }
+  match s.pipe.find? (·.key == lbl) with
+  | none => (s, obs)
+  | some e =>
+    let (e', done) := touchIn s.now e
+    if done then (closeFlow (removePipe s lbl) lbl, obs)
+    else ({ s with pipe := s.pipe.map fun x => if x.key == lbl then e' else x }, obs)
+
+theorem stepReply_cases (c : Cfg) (s : St) (m : Meta) (len : Nat) :
+    stepReply c s m len = (s, {}) ∨
+    ∃ p a, p ∈ s.seenFrom ∧ p.1 = m ∧ a ∈ s.assocs ∧ a.id = p.2 ∧
+      stepReply c s m len = replyCore s a m len := by
+  unfold stepReply
+  split
+  · split
+    · exact Or.inl rfl
+    · split
+      · exact Or.inl rfl
+      · rename_i m0 id h1 _ a h2
+        refine Or.inr ⟨(m0, id), a, List.mem_of_find?_eq_some h1, by simpa using List.find?_some h1,
+          List.mem_of_find?_eq_some h2, by simpa using List.find?_some h2, rfl⟩
+  · split
+    · exact Or.inl rfl
+    · split
+      · exact Or.inl rfl
+      · rename_i m0 id h1 _ a h2
+        refine Or.inr ⟨(m0, id), a, List.mem_of_find?_eq_some h1, by simpa using List.find?_some h1,
+          List.mem_of_find?_eq_some h2, by simpa using List.find?_some h2, rfl⟩
+  · exact Or.inl rfl
+
+theorem replyCore_inv {s : St} {a : Assoc} {m : Meta} {len : Nat} (h : Inv s) :
+    Inv (replyCore s a m len).1 := by
+  have h' : Inv { s with down := s.down + len } := ⟨h.a, h.keyNd, h.coupled⟩
+  unfold replyCore
+  simp only []
+  split
+  · exact h'
+  · rename_i e he
+    split
+    · exact h'.close _
+    · refine h'.mapPipe _ ?_
+      intro x _
+      split
+      · rename_i hx
+        have h2 : e.key = (⟨a.src, m.dst⟩ : Meta) := by simpa using List.find?_some he
+        have h3 : x.key = (⟨a.src, m.dst⟩ : Meta) := by simpa using hx
+        rw [touchIn_key, h2, h3]
+      · rfl
+
+theorem stepReply_inv {c : Cfg} {s : St} {m : Meta} {len : Nat} (h : Inv s) :
+    Inv (stepReply c s m len).1 := by
+  rcases stepReply_cases c s m len with e | ⟨_, _, _, _, _, _, e⟩ <;> rw [e]
+  · exact h
+  · exact replyCore_inv h
+
+/-! ## expiry: a fold of `closeFlow` over the expired keys -/
+
+theorem filter_not_key {α κ : Type} (key : α → κ) (P : α → Bool) (l : List α)
+    (hn : (l.map key).Nodup) (m' : κ) :
+    (∃ e ∈ l.filter (fun e => !P e), key e = m') ↔
+      (∃ e ∈ l, key e = m') ∧ m' ∉ (l.filter P).map key := by
+  constructor
+  · rintro ⟨e, he, rfl⟩
+    obtain ⟨he1, he2⟩ := List.mem_filter.1 he
+    refine ⟨⟨e, he1, rfl⟩, ?_⟩
+    intro hd
+    obtain ⟨e2, he2', hk⟩ := List.mem_map.1 hd
+    obtain ⟨h1, h2⟩ := List.mem_filter.1 he2'
+    have : e2 = e := eq_of_nodup_map key hn h1 he1 hk
+    subst this
+    simp [h2] at he2
+  · rintro ⟨⟨e, he, rfl⟩, hnd⟩
+    refine ⟨e, List.mem_filter.2 ⟨he, ?_⟩, rfl⟩
+    cases hp : P e with
+    | false => rfl
+    | true => exact absurd (List.mem_map_of_mem (List.mem_filter.2 ⟨he, hp⟩)) hnd
+
+def closeAll (ks : List Meta) (as : List Assoc) : List Assoc :=
+  ks.foldl (fun as k => as.filterMap (closeF k)) as
+
+theorem closeAll_cons (k : Meta) (ks : List Meta) (as : List Assoc) :
+    closeAll (k :: ks) as = closeAll ks (as.filterMap (closeF k)) := rfl
+
+theorem foldl_closeFlow (ks : List Meta) (s : St) :
+    ks.foldl closeFlow s = { s with assocs := closeAll ks s.assocs } := by
+  induction ks generalizing s with
+  | nil => rfl
+  | cons k ks ih =>
+    show ks.foldl closeFlow (closeFlow s k) = _
+    rw [ih]; rfl
+
+theorem AInv.closeAll {as seen n} (h : AInv as seen n) (ks : List Meta) :
+    AInv (closeAll ks as) seen n := by
+  induction ks generalizing as with
+  | nil => exact h
+  | cons k ks ih => rw [closeAll_cons]; exact ih (h.close k)
+
+theorem Cov_closeAll {as : List Assoc} {ks : List Meta} {m' : Meta} :
+    Cov (closeAll ks as) m' ↔ Cov as m' ∧ m' ∉ ks := by
+  induction ks generalizing as with
+  | nil => simp [closeAll]
+  | cons k ks ih =>
+    rw [closeAll_cons, ih, Cov_close, List.mem_cons, not_or, and_assoc]
+
+theorem expire_inv {c : Cfg} {s : St} (h : Inv s) : Inv (expire c s) := by
+  unfold expire
+  simp only []
+  rw [foldl_closeFlow]
+  refine ⟨h.a.closeAll _, ?_, ?_⟩
+  · exact List.Nodup.sublist (List.Sublist.map _ List.filter_sublist) h.keyNd
+  · intro m'
+    show (∃ e ∈ s.pipe.filter (fun e => !decide (e.last + c.timeout < s.now)), e.key = m') ↔
+      Cov (closeAll ((s.pipe.filter fun e => decide (e.last + c.timeout < s.now)).map (·.key)) s.assocs) m'
+    rw [Cov_closeAll, ← h.coupled m']
+    exact filter_not_key (·.key) (fun e => decide (e.last + c.timeout < s.now)) s.pipe h.keyNd m'
+
+theorem stepAdv_inv {c : Cfg} {s : St} {ms : Nat} (h : Inv s) : Inv (stepAdv c s ms) := by
+  unfold stepAdv
+  simp only []
+  split
+  · have := expire_inv (c := c) (s := { s with now := s.now + ms }) ⟨h.a, h.keyNd, h.coupled⟩
+    exact ⟨this.a, this.keyNd, this.coupled⟩
+  · exact ⟨h.a, h.keyNd, h.coupled⟩
+
+theorem step_inv {c : Cfg} {s : St} (h : Inv s) (op : Op) : Inv (step c s op).1 := by
+  unfold step
+  split
+  · exact h
+  · cases op with
+    | dg m len => exact stepDg_inv h
+    | reply m len => exact stepReply_inv h
+    | adv ms => exact stepAdv_inv h
+    | close => exact ⟨AInv.nil h.a.seenLt, by simp, by simp [Cov]⟩
+
+/-! ## histories -/
+
+theorem run_cons_fst (c : Cfg) (s : St) (op : Op) (ops : List Op) :
+    (run c s (op :: ops)).1 = (run c (step c s op).1 ops).1 := rfl
+
+theorem run_cons_snd (c : Cfg) (s : St) (op : Op) (ops : List Op) :
+    (run c s (op :: ops)).2 = (step c s op).2 :: (run c (step c s op).1 ops).2 := rfl
+
+theorem run_inv {c : Cfg} {s : St} (h : Inv s) (ops : List Op) : Inv (run c s ops).1 := by
+  induction ops generalizing s with
+  | nil => exact h
+  | cons op ops ih => rw [run_cons_fst]; exact ih (step_inv h op)
+
+theorem runFrom_inv (c : Cfg) (ops : List Op) : Inv (runFrom c ops).1 := run_inv (inv_init c) ops
+
+theorem run_append_fst (c : Cfg) (s : St) (a b : List Op) :
+    (run c s (a ++ b)).1 = (run c (run c s a).1 b).1 := by
+  induction a generalizing s with
+  | nil => rfl
+  | cons op a ih => rw [List.cons_append, run_cons_fst, run_cons_fst, ih]
+
+theorem run_append_snd (c : Cfg) (s : St) (a b : List Op) :
+    (run c s (a ++ b)).2 = (run c s a).2 ++ (run c (run c s a).1 b).2 := by
+  induction a generalizing s with
+  | nil => rfl
+  | cons op a ih => rw [List.cons_append, run_cons_snd, run_cons_snd, run_cons_fst, ih, List.cons_append]
+
+theorem run_obs_forall {c : Cfg} {P : Obs → Prop} (hP : ∀ s op, Inv s → P (step c s op).2)
+    {s : St} (h : Inv s) (ops : List Op) : ∀ o ∈ (run c s ops).2, P o := by
+  induction ops generalizing s with
+  | nil => intro o ho; simp [run] at ho
+  | cons op ops ih =>
+    intro o ho
+    rw [run_cons_snd] at ho
+    rcases List.mem_cons.1 ho with rfl | ho
+    · exact hP s op h
+    · exact ih (step_inv h op) o ho
+
+/-! ## observations -/
+
+/-- a datagram goes to its destination, a reply is labelled with the flow the server answered -/
+def Routed (o : Obs) : Prop := (∀ x ∈ o.srv, x.1 = x.2.1.dst) ∧ (∀ x ∈ o.cli, x.1 = x.2.1)
+
+theorem routed_empty : Routed {} := ⟨by simp, by simp⟩
+
+theorem sinkWrite_routed (c : Cfg) (s : St) (m : Meta) (len : Nat) : Routed (sinkWrite c s m len).2 := by
+  unfold sinkWrite
+  split
+  · exact routed_empty
+  · split
+    · exact ⟨by simp, by simp⟩
+    · exact ⟨by simp, by simp⟩
+    · exact routed_empty
+
+theorem stepDg_routed (c : Cfg) (s : St) (m : Meta) (len : Nat) : Routed (stepDg c s m len).2 := by
+  unfold stepDg
+  split <;> exact sinkWrite_routed ..
+
+theorem replyCore_obs (s : St) (a : Assoc) (m : Meta) (len : Nat) :
+    (replyCore s a m len).2 = { cli := [(⟨a.src, m.dst⟩, m, len)] } := by
+  unfold replyCore
+  simp only []
+  split
+  · rfl
+  · split <;> rfl
+
+theorem stepReply_routed {c : Cfg} {s : St} (h : Inv s) (m : Meta) (len : Nat) :
+    Routed (stepReply c s m len).2 := by
+  rcases stepReply_cases c s m len with e | ⟨p, a, hp, hpm, ha, hid, e⟩ <;> rw [e]
+  · exact routed_empty
+  · rw [replyCore_obs]
+    have := h.a.world p hp a ha hid
+    rw [hpm] at this
+    refine ⟨by simp, ?_⟩
+    intro x hx
+    simp only [List.mem_singleton] at hx
+    subst hx
+    cases m
+    simp_all
+
+theorem step_routed {c : Cfg} (s : St) (op : Op) (h : Inv s) : Routed (step c s op).2 := by
+  unfold step
+  split
+  · exact routed_empty
+  · cases op with
+    | dg m len => exact stepDg_routed ..
+    | reply m len => exact stepReply_routed h m len
+    | adv ms => exact routed_empty
+    | close => exact routed_empty
+
+/-! ## termination -/
+
+theorem sinkWrite_finished (c : Cfg) (s : St) (m : Meta) (len : Nat) :
+    (sinkWrite c s m len).1.finished = s.finished := by
+  unfold sinkWrite
+  split
+  · rfl
+  · split <;> rfl
+
+theorem stepDg_finished (c : Cfg) (s : St) (m : Meta) (len : Nat) :
+    (stepDg c s m len).1.finished = s.finished := by
+  unfold stepDg
+  split
+  · rw [sinkWrite_finished]
+  · rw [sinkWrite_finished]
+    cases findAssoc s m.src <;> rfl
+
+theorem replyCore_finished (s : St) (a : Assoc) (m : Meta) (len : Nat) :
+    (replyCore s a m len).1.finished = s.finished := by
+  unfold replyCore
+  simp only []
+  split
+  · rfl
+  · split <;> rfl
+
+theorem stepReply_finished (c : Cfg) (s : St) (m : Meta) (len : Nat) :
+    (stepReply c s m len).1.finished = s.finished := by
+  rcases stepReply_cases c s m len with e | ⟨_, _, _, _, _, _, e⟩ <;> rw [e]
+  exact replyCore_finished ..
+
+theorem stepAdv_finished (c : Cfg) (s : St) (ms : Nat) : (stepAdv c s ms).finished = s.finished := by
+  unfold stepAdv expire
+  simp only []
+  split
+  · rw [foldl_closeFlow]
+  · rfl
+
+theorem step_finished (c : Cfg) (s : St) {op : Op} (h : op ≠ .close) :
+    (step c s op).1.finished = s.finished := by
+  unfold step
+  split
+  · rfl
+  · cases op with
+    | dg m len => exact stepDg_finished ..
+    | reply m len => exact stepReply_finished ..
+    | adv ms => exact stepAdv_finished ..
+    | close => exact absurd rfl h
+
+theorem run_not_finished (c : Cfg) (s : St) (ops : List Op) (hs : s.finished = false)
+    (h : ∀ op ∈ ops, op ≠ .close) : (run c s ops).1.finished = false := by
+  induction ops generalizing s with
+  | nil => exact hs
+  | cons op ops ih =>
+    rw [run_cons_fst]
+    apply ih
+    · rw [step_finished c s (h op List.mem_cons_self)]; exact hs
+    · exact fun o ho => h o (List.mem_cons_of_mem _ ho)
+
+/-! ## the association of one source -/
+
+theorem find?_close_other (as : List Assoc) {m : Meta} {src : Nat} (hne : src ≠ m.src) :
+    (as.filterMap (closeF m)).find? (·.src == src) = as.find? (·.src == src) := by
+  induction as with
+  | nil => rfl
+  | cons x as ih =>
+    cases hx : closeF m x with
+    | none =>
+      have : x.src = m.src := by
+        unfold closeF at hx
+        by_cases h : x.src = m.src
+        · exact h
+        · simp [h] at hx
+      have h2 : x.src ≠ src := fun e => hne (e ▸ this)
+      simp [List.filterMap_cons, hx, h2, ih]
+    | some y =>
+      rcases closeF_eq_some_iff.1 hx with ⟨h1, _, rfl⟩ | ⟨_, rfl⟩
+      · have h2 : x.src ≠ src := fun e => hne (e ▸ h1)
+        simp [List.filterMap_cons, hx, h2, ih]
+      · by_cases h2 : y.src = src <;> simp [List.filterMap_cons, hx, h2, ih]
+
+theorem find?_join_other (as : List Assoc) {m : Meta} {src : Nat} (hne : src ≠ m.src) :
+    (as.map (joinF m)).find? (·.src == src) = as.find? (·.src == src) := by
+  induction as with
+  | nil => rfl
+  | cons x as ih =>
+    by_cases h2 : x.src = src
+    · have : joinF m x = x := by
+        unfold joinF
+        have : x.src ≠ m.src := fun e => hne (h2 ▸ e)
+        simp [this]
+      simp [this, h2]
+    · simp [joinF_src, h2, ih]
+
+theorem sinkWrite_other (c : Cfg) (s : St) (m : Meta) (len : Nat) {src : Nat} (hne : src ≠ m.src) :
+    findAssoc (sinkWrite c s m len).1 src = findAssoc s src := by
+  unfold sinkWrite
+  split
+  · exact find?_close_other s.assocs hne
+  · split <;> rfl
+
+theorem stepDg_other (c : Cfg) (s : St) (m : Meta) (len : Nat) {src : Nat} (hne : src ≠ m.src) :
+    findAssoc (stepDg c s m len).1 src = findAssoc s src := by
+  unfold stepDg
+  split
+  · rw [sinkWrite_other c _ m len hne]; rfl
+  · rw [sinkWrite_other c _ m len hne]
+    cases findAssoc s m.src with
+    | some a => exact find?_join_other s.assocs hne
+    | none =>
+      show (s.assocs ++ [_]).find? (·.src == src) = s.assocs.find? (·.src == src)
+      have : m.src ≠ src := fun e => hne e.symm
+      simp [List.find?_append, this]
+
+theorem step_dg_other (c : Cfg) (s : St) (m : Meta) (len : Nat) {src : Nat} (hne : src ≠ m.src) :
+    findAssoc (step c s (.dg m len)).1 src = findAssoc s src := by
+  unfold step
+  split
+  · rfl
+  · exact stepDg_other c s m len hne
+
+theorem filterMap_close_id (as : List Assoc) {m : Meta} (h : ∀ y ∈ as, y.src ≠ m.src) :
+    as.filterMap (closeF m) = as := by
+  induction as with
+  | nil => rfl
+  | cons x as ih =>
+    have hx : closeF m x = some x := closeF_eq_some_iff.2 (Or.inr ⟨h x List.mem_cons_self, rfl⟩)
+    rw [List.filterMap_cons, hx, ih (fun y hy => h y (List.mem_cons_of_mem _ hy))]
+
+/-- closing a flow whose association has other peers keeps the association -/
+theorem find?_close_keep (as : List Assoc) {m : Meta} {a : Assoc}
+    (ha : as.find? (·.src == m.src) = some a) (hp : a.peers.filter (· != m.dst) ≠ []) :
+    (as.filterMap (closeF m)).find? (·.src == m.src) =
+      some { a with peers := a.peers.filter (· != m.dst) } := by
+  induction as with
+  | nil => simp at ha
+  | cons x as ih =>
+    by_cases h : x.src = m.src
+    · simp [h] at ha
+      subst ha
+      have hx : closeF m x = some { x with peers := x.peers.filter (· != m.dst) } :=
+        closeF_eq_some_iff.2 (Or.inl ⟨h, hp, rfl⟩)
+      simp [List.filterMap_cons, hx, h]
+    · simp [h] at ha
+      have hx : closeF m x = some x := closeF_eq_some_iff.2 (Or.inr ⟨h, rfl⟩)
+      simp [List.filterMap_cons, hx, h, ih ha]
+
+/-- closing the last flow of an association releases it -/
+theorem find?_close_last (as : List Assoc) (hn : (as.map (·.src)).Nodup) {m : Meta} {a : Assoc}
+    (ha : as.find? (·.src == m.src) = some a) (hp : a.peers.filter (· != m.dst) = []) :
+    (as.filterMap (closeF m)).find? (·.src == m.src) = none ∧
+      (as.filterMap (closeF m)).length + 1 = as.length := by
+  induction as with
+  | nil => simp at ha
+  | cons x as ih =>
+    rw [List.map_cons, List.nodup_cons] at hn
+    by_cases h : x.src = m.src
+    · simp [h] at ha
+      subst ha
+      have hx : closeF m x = none := by
+        unfold closeF; simp [h, hp]
+      have hall : ∀ y ∈ as, y.src ≠ m.src := by
+        intro y hy e
+        exact hn.1 (List.mem_map.2 ⟨y, hy, e.trans h.symm⟩)
+      rw [List.filterMap_cons, hx, filterMap_close_id as hall]
+      refine ⟨?_, rfl⟩
+      rw [List.find?_eq_none]
+      intro y hy
+      simpa using hall y hy
+    · simp [h] at ha
+      have hx : closeF m x = some x := closeF_eq_some_iff.2 (Or.inr ⟨h, rfl⟩)
+      obtain ⟨i1, i2⟩ := ih hn.2 ha
+      rw [List.filterMap_cons, hx]
+      refine ⟨?_, by simp [i2]⟩
+      simp [h, i1]
 
 end TT.UdpSocks
